@@ -706,6 +706,8 @@ theorem target_denotes (ctx : Ctx) (hc : CanonOK ctx) : ∀ e : Expr, TargetOK e
       · simp at h2
       · obtain ⟨an, han, h2⟩ := (Outcome.bind_eq_ok _ _ _).mp h2
         obtain ⟨res, hres, hm⟩ := (Outcome.bind_eq_ok _ _ _).mp h2
+        split at hm
+        · simp at hm
         cases hm
         have iha := target_denotes ctx hc l ht' a an ha han
         intro bv hbv
